@@ -26,7 +26,7 @@ impl Names {
         &self.secrets[s as usize]
     }
 }
-const SPICE: [&str; 6] = ["", "é", "密钥", "ß∂", "🔑", " sp ace "];
+const SPICE: [&str; 10] = ["", "é", "密钥", "ß∂", "🔑", " sp ace ", "*x", "a*b/c", "?[x]", "%2A."];
 fn mk_names(r: &mut Rng, ni: u64, ng: u64, ns: u64, tag: u64) -> Names {
     let mut ents = vec![Vault::ROOT.to_string()];
     for i in 1..=ni {
@@ -38,10 +38,14 @@ fn mk_names(r: &mut Rng, ni: u64, ng: u64, ns: u64, tag: u64) -> Names {
     let secrets = (0..ns)
         .map(|s| {
             let spice = SPICE[r.below(SPICE.len() as u64) as usize];
-            if r.chance(1, 2) {
-                format!("ns{}/NAME{}x{}{}", s % 2, tag, s, spice)
-            } else {
-                format!("NAME{}x{}{}", tag, s, spice)
+            // hostile alphabet: glob characters, slashes, unicode, blanks, names that look like patterns
+            // (the marker keeps every name unique and long enough to search for; no name ENDS in '*')
+            match r.below(5) {
+                0 => format!("ns{}/NAME{}x{}{}", s % 2, tag, s, spice),
+                1 => format!("NA*ME{}x{}{}.", tag, s, spice),
+                2 => format!("*/NAME{}x{}{}.", tag, s, spice),
+                3 => format!(" NAME{}x{}{} ", tag, s, spice),
+                _ => format!("NAME{}x{}{}.", tag, s, spice),
             }
         })
         .collect();
@@ -67,6 +71,7 @@ fn new_value(r: &mut Rng, nm: &mut Names, tag: u64) -> u64 {
 }
 
 // ------------------------------------------------------------------------------------ vault
+const MASTER: &[u8] = b"correct horse battery staple";
 struct Ctx {
     vault: Vault,
     store: TensorStore,
@@ -81,7 +86,7 @@ fn mk_vault(pol: (u64, u64, u64)) -> Ctx {
     cfg.argon2_parallelism = 1;
     cfg.salt = Some([7u8; 16]);
     cfg.attenuation = AttenuationPolicy { admin_limit: pol.0 as usize, write_limit: pol.1 as usize, horizon: pol.2 as usize };
-    let vault = Vault::new(b"correct horse battery staple", graph.clone(), store.clone(), cfg).unwrap();
+    let vault = Vault::new(MASTER, graph.clone(), store.clone(), cfg).unwrap();
     Ctx { vault, store, graph }
 }
 fn node(g: &GraphEngine, key: &str) -> u64 {
@@ -130,7 +135,8 @@ enum Op {
     Delete(u64, u64),
     Grant(u64, u64, u64, u64, Option<u64>),
     Revoke(u64, u64, u64),
-    Delegate(u64, u64, u64, u64, Option<u64>),
+    Delegate(u64, u64, Vec<u64>, u64, Option<u64>),
+    Sealed(u64, u64, u64),
     Perm(u64, u64),
     Member(u64, u64),
     Unmember(u64, u64),
@@ -150,7 +156,8 @@ impl Op {
             Op::Delete(r, s) => format!("ODelete {r} {s}"),
             Op::Grant(r, e, s, l, t) => format!("OGrant {r} {e} {s} {l} {}", ttl_coq(t)),
             Op::Revoke(r, e, s) => format!("ORevoke {r} {e} {s}"),
-            Op::Delegate(p, c, s, l, t) => format!("ODelegate {p} {c} {s} {l} {}", ttl_coq(t)),
+            Op::Delegate(p, c, ss, l, t) => format!("ODelegate {p} {c} {} {l} {}", list(ss.iter().map(|x| n(*x))), ttl_coq(t)),
+            Op::Sealed(d, r, s) => format!("OSealed {d} {r} {s}"),
             Op::Perm(r, s) => format!("OPerm {r} {s}"),
             Op::Member(a, b) => format!("OMember {a} {b}"),
             Op::Unmember(a, b) => format!("OUnmember {a} {b}"),
@@ -175,11 +182,11 @@ struct Out {
     allows: u64,
     denies: u64,
 }
-fn run_ops(c: &Ctx, nm: &Names, ops: &[Op], dist: &mut Dist) -> Out {
-    let v = &c.vault;
+fn run_ops(c: &mut Ctx, nm: &Names, ops: &[Op], dist: &mut Dist) -> Out {
     let mut out = Out { answers: vec![], errors: vec![], allows: 0, denies: 0 };
     let mut edge_ids: HashMap<(u64, u64), Vec<u64>> = HashMap::new();
     for op in ops {
+        let v = &c.vault;
         let mut code_of = |r: Result<(), VaultError>, out: &mut Out| -> u64 {
             match r {
                 Ok(()) => {
@@ -238,9 +245,22 @@ fn run_ops(c: &Ctx, nm: &Names, ops: &[Op], dist: &mut Dist) -> Out {
                 format!("ACode {}", code_of(res, &mut out))
             }
             Op::Revoke(r, e, s) => format!("ACode {}", code_of(v.revoke(nm.ent(*r), nm.ent(*e), nm.sec(*s)), &mut out)),
-            Op::Delegate(p, ch, s, l, t) => {
-                let res = v.delegate(nm.ent(*p), nm.ent(*ch), &[nm.sec(*s)], lvl_of(*l), t.map(real_ttl)).map(|_| ());
+            Op::Delegate(p, ch, ss, l, t) => {
+                let names: Vec<&str> = ss.iter().map(|x| nm.sec(*x)).collect();
+                let res = v.delegate(nm.ent(*p), nm.ent(*ch), &names, lvl_of(*l), t.map(real_ttl)).map(|_| ());
                 format!("ACode {}", code_of(res, &mut out))
+            }
+            Op::Sealed(d, r, s) => {
+                let l = {
+                    c.vault.seal().unwrap();
+                    if *d > 0 {
+                        std::thread::sleep(Duration::from_millis(120));
+                    }
+                    let l = c.vault.get_permission(nm.ent(*r), nm.sec(*s)).map(lvl_code).unwrap_or(0);
+                    c.vault.unseal(MASTER).unwrap();
+                    l
+                };
+                format!("ALevel {}", opt(Some(n(l))))
             }
             Op::Perm(r, s) => format!("ALevel {}", opt(Some(n(v.get_permission(nm.ent(*r), nm.sec(*s)).map(lvl_code).unwrap_or(0))))),
             Op::Member(a, b) => {
@@ -273,6 +293,7 @@ fn run_ops(c: &Ctx, nm: &Names, ops: &[Op], dist: &mut Dist) -> Out {
             Op::Grant(..) => "op.grant_with_ttl",
             Op::Revoke(..) => "op.revoke",
             Op::Delegate(..) => "op.delegate",
+            Op::Sealed(..) => "op.sealed_window",
             Op::Perm(..) => "op.get_permission",
             Op::Member(..) => "op.member_add",
             Op::Unmember(..) => "op.member_remove",
@@ -289,6 +310,7 @@ fn gen_ops(r: &mut Rng, nm: &mut Names, ni: u64, ng: u64, ns: u64, len: usize, t
     // delegation forest bookkeeping so that a child never gets two parents (DelegationManager looks parents up
     // through DashMap iteration: two parents would make the implementation itself nondeterministic)
     let mut parent_of: HashMap<u64, u64> = HashMap::new();
+    let mut last_pair: Option<(u64, u64)> = None;
     // a few secrets exist from the start so that most calls are about existing secrets
     for s in 0..ns {
         if r.chance(3, 4) {
@@ -318,14 +340,22 @@ fn gen_ops(r: &mut Rng, nm: &mut Names, ni: u64, ng: u64, ns: u64, len: usize, t
         } else if k < 60 {
             let req = if r.chance(3, 5) { 0 } else { r.range(1, ni) };
             let ttl = match r.below(6) {
-                0 => Some(0),
-                1 => Some(LONG),
+                0 | 1 => Some(0),
+                2 => Some(LONG),
                 _ => None,
             };
-            Op::Grant(req, anyent(r), s, r.range(1, 3), ttl)
-        } else if k < 67 {
+            // often the same (identity, secret) pair again, with another level and deadline
+            let (e, sx) = match (&last_pair, r.chance(1, 3)) {
+                (Some(p), true) => *p,
+                _ => (anyent(r), s),
+            };
+            last_pair = Some((e, sx));
+            Op::Grant(req, e, sx, r.range(1, 3), ttl)
+        } else if k < 66 {
             Op::Revoke(if r.chance(3, 5) { 0 } else { r.range(1, ni) }, anyent(r), s)
-        } else if k < 74 {
+        } else if k < 68 {
+            Op::Sealed(0, r.range(0, ni), s)
+        } else if k < 76 {
             let p = if r.chance(1, 4) { 0 } else { r.range(1, ni) };
             let ch = r.range(1, ni);
             // keep the forest property: skip a delegation that would give `ch` a second parent
@@ -339,7 +369,15 @@ fn gen_ops(r: &mut Rng, nm: &mut Names, ni: u64, ng: u64, ns: u64, len: usize, t
                 // the record is only created when the call succeeds; being conservative here is harmless
                 parent_of.entry(ch).or_insert(p);
             }
-            Op::Delegate(p, ch, s, r.range(1, 3), if r.chance(1, 5) { Some(0) } else { None })
+            // one or two secrets: reachable and unreachable ones mix by chance
+            let mut ss = vec![s];
+            if r.chance(1, 2) {
+                let s2 = r.below(ns);
+                if s2 != s {
+                    ss.push(s2);
+                }
+            }
+            Op::Delegate(p, ch, ss, r.range(1, 3), if r.chance(1, 4) { Some(0) } else { None })
         } else if k < 80 {
             Op::Perm(r.range(1, ni), s)
         } else if k < 94 {
@@ -426,8 +464,8 @@ fn main() {
     let policies: [(u64, u64, u64); 5] = [(1, 2, 10), (1, 2, 3), (2, 3, 4), (0, 1, 2), (1, 1, 1)];
 
     let mut run_history = |tagn: u64, pol: (u64, u64, u64), nm: Names, ops: Vec<Op>, human: &str, hist: &mut CaseWriter, scan: &mut CaseWriter, dist: &mut Dist, hits: &mut Hits| {
-        let c = mk_vault(pol);
-        let out = run_ops(&c, &nm, &ops, dist);
+        let mut c = mk_vault(pol);
+        let out = run_ops(&mut c, &nm, &ops, dist);
         dist.add("answers.allow", out.allows);
         dist.add("answers.deny", out.denies);
         let term = format!(
@@ -522,7 +560,7 @@ fn main() {
             Op::Grant(0, 1, 0, 3, Some(0)),
             Op::Grant(1, 2, 0, 3, None),
             Op::Grant(0, 1, 0, 3, Some(0)),
-            Op::Delegate(1, 2, 0, 1, None),
+            Op::Delegate(1, 2, vec![0], 1, None),
             Op::Grant(0, 1, 0, 3, Some(0)),
             Op::Delete(1, 0),
         ];
@@ -531,7 +569,7 @@ fn main() {
         let mut nm = mk_names(&mut rng, 2, 1, 1, 902);
         nm.secrets[0] = "prod/XSECRETNAMEX".into();
         let v0 = new_value(&mut rng, &mut nm, 902);
-        let ops = vec![Op::Set(0, 0, v0), Op::Grant(0, 1, 0, 2, Some(LONG)), Op::Delegate(1, 2, 0, 1, None), Op::Get(2, 0)];
+        let ops = vec![Op::Set(0, 0, v0), Op::Grant(0, 1, 0, 2, Some(LONG)), Op::Delegate(1, 2, vec![0], 1, None), Op::Get(2, 0)];
         run_history(902, (1, 2, 10), nm, ops, "corpus F-C14-name", &mut hist, &mut scan, &mut dist, &mut hits);
         // membership alone; attenuation along a chain; revoke / delete remove at once
         let mut nm = mk_names(&mut rng, 2, 3, 2, 903);
@@ -557,6 +595,69 @@ fn main() {
             Op::Get(1, 0),
         ];
         run_history(903, (1, 2, 3), nm, ops, "corpus membership/attenuation/revoke/delete", &mut hist, &mut scan, &mut dist, &mut hits);
+    }
+
+    {
+        // seeded C14-1 shape: two TTL grants to one pair, higher level + shorter deadline first
+        let mut nm = mk_names(&mut rng, 2, 1, 1, 904);
+        let v0 = new_value(&mut rng, &mut nm, 904);
+        let v1 = new_value(&mut rng, &mut nm, 904);
+        let ops = vec![
+            Op::Set(0, 0, v0),
+            Op::Grant(0, 1, 0, 3, Some(1)),
+            Op::Grant(0, 1, 0, 1, Some(LONG)),
+            Op::Tick(1),
+            Op::Perm(1, 0),
+            Op::Rotate(1, 0, v1),
+            Op::Grant(1, 2, 0, 3, None),
+            Op::Get(1, 0),
+        ];
+        run_history(904, (1, 2, 10), nm, ops, "corpus two TTL grants to one pair (Admin 20 ms, then Read 1 h), wait", &mut hist, &mut scan, &mut dist, &mut hits);
+        let mut nm = mk_names(&mut rng, 2, 1, 1, 905);
+        let v0 = new_value(&mut rng, &mut nm, 905);
+        let v1 = new_value(&mut rng, &mut nm, 905);
+        let ops = vec![Op::Set(0, 0, v0), Op::Grant(0, 1, 0, 3, Some(0)), Op::Grant(0, 1, 0, 1, Some(LONG)), Op::Rotate(1, 0, v1), Op::Perm(1, 0), Op::Delete(1, 0)];
+        run_history(905, (1, 2, 10), nm, ops, "corpus two TTL grants to one pair (Admin expired at once, then Read 1 h)", &mut hist, &mut scan, &mut dist, &mut hits);
+        // seeded C14-2 shape: delegate naming one secret the parent reaches and one it does not
+        let mut nm = mk_names(&mut rng, 3, 1, 2, 906);
+        let v0 = new_value(&mut rng, &mut nm, 906);
+        let v1 = new_value(&mut rng, &mut nm, 906);
+        let v2 = new_value(&mut rng, &mut nm, 906);
+        let ops = vec![
+            Op::Set(0, 0, v0),
+            Op::Set(0, 1, v1),
+            Op::Grant(0, 1, 0, 2, None),
+            Op::Delegate(1, 2, vec![0, 1], 2, None),
+            Op::Perm(2, 1),
+            Op::Rotate(2, 1, v2),
+            Op::Delegate(1, 2, vec![1, 0], 2, None),
+            Op::Get(2, 1),
+            Op::Delegate(1, 2, vec![0], 2, None),
+            Op::Get(2, 0),
+        ];
+        run_history(906, (1, 2, 10), nm, ops, "corpus delegate with a reachable and an unreachable secret", &mut hist, &mut scan, &mut dist, &mut hits);
+        // seeded C14-3 shape: names over a hostile alphabet, every audited call
+        let mut nm = mk_names(&mut rng, 2, 1, 3, 907);
+        nm.secrets[0] = "pro*d/XSTARNAME907*x".into();
+        nm.secrets[1] = "*XGLOBNAME907".into();
+        nm.secrets[2] = "a/b/../XDOTS907 ".into();
+        let vs: Vec<u64> = (0..4).map(|_| new_value(&mut rng, &mut nm, 907)).collect();
+        let mut ops = vec![];
+        for s in 0..3u64 {
+            ops.extend([Op::Set(0, s, vs[s as usize]), Op::Grant(0, 1, s, 2, None), Op::Get(1, s), Op::Rotate(1, s, vs[3]), Op::ListExact(1, s), Op::Revoke(0, 1, s), Op::Get(1, s)]);
+        }
+        ops.push(Op::List(0));
+        ops.push(Op::Delete(0, 1));
+        run_history(907, (1, 2, 10), nm, ops, "corpus hostile secret names", &mut hist, &mut scan, &mut dist, &mut hits);
+        // seal / unseal with a TTL grant expiring while sealed (side finding of the mutation round)
+        let mut nm = mk_names(&mut rng, 2, 1, 1, 908);
+        let v0 = new_value(&mut rng, &mut nm, 908);
+        let ops = vec![Op::Set(0, 0, v0), Op::Grant(0, 1, 0, 1, Some(1)), Op::Sealed(1, 1, 0), Op::Get(1, 0), Op::Perm(1, 0), Op::Get(0, 0)];
+        run_history(908, (1, 2, 10), nm, ops, "corpus grant_with_ttl(20 ms); seal; wait; get_permission while sealed; unseal; get", &mut hist, &mut scan, &mut dist, &mut hits);
+        let mut nm = mk_names(&mut rng, 2, 1, 1, 909);
+        let v0 = new_value(&mut rng, &mut nm, 909);
+        let ops = vec![Op::Set(0, 0, v0), Op::Grant(0, 1, 0, 2, Some(0)), Op::Sealed(0, 2, 0), Op::Rotate(1, 0, v0), Op::Sealed(0, 0, 0), Op::Get(1, 0)];
+        run_history(909, (1, 2, 10), nm, ops, "corpus expired grant, sealed window, then use", &mut hist, &mut scan, &mut dist, &mut hits);
     }
 
     // ---- random long mixed histories
